@@ -141,6 +141,22 @@ Theorem receive_resync_noop : forall (H : bytes -> bytes) (hdr : stat -> bytes) 
   {| ds_map := dest_of A; ds_reqs := []; ds_notifs := []; ds_changes := []; ds_err := false |}.
 Proof. exact receive_resync_noop_proof. Qed.
 
+(* ... and a transfer REACHES that fixpoint: after a transfer from an honest sender
+   ([links_meta]: hard-link entries carry the metadata of the entry they name) the destination,
+   listed again ([dest_listing]: under exactly the paths it now holds — first conjunct — the stat
+   and bytes it holds there), shows the identity key of the source at every path, so a second
+   synchronisation of the unchanged source requests nothing, notifies nothing, touches nothing.
+   (Evaluated on the real walker + differ + DiskWriter run twice: kind 0204.) *)
+Theorem resync_after_transfer_noop : forall (H : bytes -> bytes) (hdr : stat -> bytes) d A B,
+  wf_listing (map fst A) -> wf_listing (map fst B) -> links_ok B -> identity_faithful d A B ->
+  links_meta B ->
+  let r := receive_abs H hdr Fresh d A B in
+  let A' := dest_listing B (ds_map r) in
+  (forall p, (exists x, alookup p (ds_map r) = Some x) <-> (exists e, In e A' /\ st_path (fst e) = p)) /\
+  receive_abs H hdr Fresh DMetadata A' B =
+  {| ds_map := dest_of A'; ds_reqs := []; ds_notifs := []; ds_changes := []; ds_err := false |}.
+Proof. exact resync_after_transfer_noop_proof. Qed.
+
 (* With differencing disabled every regular file of the source is re-requested. *)
 Theorem diff_none_requests_all : forall (H : bytes -> bytes) (hdr : stat -> bytes) A B,
   wf_listing (map fst A) -> wf_listing (map fst B) -> links_ok B ->
@@ -177,6 +193,7 @@ Print Assumptions untouched_keep_inode.
 Print Assumptions rewritten_get_new_inode.
 Print Assumptions hard_link_joins_inode.
 Print Assumptions receive_resync_noop.
+Print Assumptions resync_after_transfer_noop.
 Print Assumptions diff_none_requests_all.
 
 (* ------------------------------------------------------------------ examples *)
@@ -247,6 +264,24 @@ Proof.
   split; [apply links_ok_b_sound; vm_compute; reflexivity|].
   apply identity_faithful_b_sound; vm_compute; reflexivity.
 Qed.
+(* a hard link announced with other metadata than the file it names (mode 0600, uid 7, mtime 9
+   instead of 0644, 0, 2): the new name d shows the metadata of the inode of c — the one c got in
+   this transfer — under its own path and link name; only the notification says otherwise *)
+Definition exBd : list entry :=
+  [ (file pa 2, [9;9;9]); (file p_a_b 1, [3;3;3]); (file pc 2, [6;6;6]);
+    (mk [100] 384 7 0 3 9 pc 0 0, [6;6;6]) ].
+Example example_resync :
+  links_meta exB /\
+  let r := receive_abs (fun x : list N => x) (fun _ => []) Fresh DMetadata exA exB in
+  map (fun e => st_path (fst e)) (dest_listing exB (ds_map r)) = [pa; p_a_b; pc; [100]]
+  /\ ds_notifs (receive_abs (fun x : list N => x) (fun _ => []) Fresh DMetadata (dest_listing exB (ds_map r)) exB) = []
+  (* a dishonest hard link never converges: the second synchronisation links it again *)
+  /\ map (fun n => snd (fst n))
+       (ds_notifs (receive_abs (fun x : list N => x) (fun _ => []) Fresh DMetadata
+          (dest_listing exBd (ds_map (receive_abs (fun x : list N => x) (fun _ => []) Fresh DMetadata exA exBd))) exBd))
+     = [[100]].
+Proof. split; [apply links_meta_b_sound; vm_compute; reflexivity|]. vm_compute. repeat split; reflexivity. Qed.
+
 Example example_transfer :
   let r := receive_abs (fun x : list N => x) (fun _ => []) Fresh DMetadata exA exB in
   ds_err r = false
@@ -261,12 +296,6 @@ Example example_transfer :
   /\ option_map de_ino (alookup pc (ds_map r)) = Some 9.
 Proof. vm_compute. repeat split; reflexivity. Qed.
 
-(* a hard link announced with other metadata than the file it names (mode 0600, uid 7, mtime 9
-   instead of 0644, 0, 2): the new name d shows the metadata of the inode of c — the one c got in
-   this transfer — under its own path and link name; only the notification says otherwise *)
-Definition exBd : list entry :=
-  [ (file pa 2, [9;9;9]); (file p_a_b 1, [3;3;3]); (file pc 2, [6;6;6]);
-    (mk [100] 384 7 0 3 9 pc 0 0, [6;6;6]) ].
 Example dishonest_link_shows_inode_metadata :
   let r := receive_abs (fun x : list N => x) (fun _ => []) Fresh DMetadata exA exBd in
   links_ok exBd /\ ds_err r = false
